@@ -39,7 +39,8 @@ LOCAL C15Want(e) ==        \* expected encoded outcome, or <<-1>> when the class
        [] e.cls = "addmod" -> C15Ok(Mod(Add(e.a, e.b), e.m))
        [] e.cls = "submod" -> C15Ok(Mod(Sub(Add(e.a, e.m), e.b), e.m))
        [] e.cls = "mulmod" -> C15Ok(Mod(Mul(e.a, e.b), e.m))
-       [] e.cls = "invmod" -> LET r == ModInv(e.a, e.m) IN
+       [] e.cls = "invmod" -> IF e.m = Zero THEN C15None ELSE              \* nothing is invertible modulo zero (13e5eda)
+                              LET r == ModInv(e.a, e.m) IN
                               IF r[1] THEN (IF e.m = One THEN <<-1>> ELSE C15Ok(r[2])) ELSE C15None
        [] e.cls = "powmod" -> C15Ok(ModPow(e.a, e.b, e.m))
        [] e.cls = "powk"   -> C15Ok(ModPow(e.a, Mod2k(e.b, e.s), e.m))
